@@ -34,6 +34,33 @@ pub fn generate(thorough: bool, seed: u64, out: &mut dyn Write) {
     // SHA-1: lengths 0..=300, every padding boundary, random lengths, > 2 MiB (shared with C10)
     let mut rng_sha = Rng::new(seed, "C12-sha1");
     crate::c10::sha1_cases(&mut rng_sha, thorough, out);
+    // several files hashed by one FileInfo::new call (2..6 files, earlier ones at and beyond one
+    // 64-byte block): hasher state must not survive from one file to the next
+    for i in 0..(if thorough { 3000 } else { 150 }) {
+        let nf = rng_sha.range(2, 6) as usize;
+        let f = crate::c10::files_field(&mut rng_sha, nf, if i % 10 == 0 { 5000 } else { 400 });
+        writeln!(out, "new {}", f).unwrap();
+    }
+    // path hashes at the index level, both index kinds, with and without a folder part
+    for i in 0..(if thorough { 20000 } else { 600 }) {
+        let depth = rng_sha.below(4) as usize; // 0 = a root-level path without any '/'
+        let mut p: Vec<u8> = vec![];
+        for d in 0..=depth {
+            if d > 0 {
+                p.push(b'/');
+            }
+            let n = rng_sha.range(1, 12) as usize;
+            for _ in 0..n {
+                p.push(match rng_sha.below(6) {
+                    0 | 1 => rng_sha.range(b'A' as u64, b'Z' as u64) as u8,
+                    2 | 3 => rng_sha.range(b'a' as u64, b'z' as u64) as u8,
+                    4 => rng_sha.range(b'0' as u64, b'9' as u64) as u8,
+                    _ => *rng_sha.pick(b"._-"),
+                });
+            }
+        }
+        writeln!(out, "idxci {} {}", 1 + (i % 2), hex(&p)).unwrap();
+    }
     let n = if thorough { 200_000 } else { 4_000 };
     for i in 0..n {
         let len = match rng.below(10) {
@@ -57,6 +84,16 @@ pub fn generate(thorough: bool, seed: u64, out: &mut dyn Write) {
 }
 
 pub fn run(case: &str, input: &str) -> String {
+    if case.starts_with("new ") {
+        return crate::c10::run(case, input);
+    }
+    if case.starts_with("idxci ") {
+        let f: Vec<&str> = input.split(' ').collect();
+        if f.len() != 2 {
+            return "bad-case".into();
+        }
+        return crate::c01::run_idx(f[0], f[1]);
+    }
     let f: Vec<&str> = input.split(' ').collect();
     if f.len() != 2 {
         return "bad-case".into();
